@@ -18,6 +18,7 @@ pub enum Nonce {
 }
 
 pub fn seal_local_with<V: Full, M: Payload, F: Footer>(k: &LocalKey<V>, m: M, f: F, aad: &[u8], n: &Nonce) -> Result<SealedToken<V, Local, M, F>, PasetoError> {
+    crate::perturb::between();
     let t = UnsealedToken::<V, Local, M>::new(m).with_footer(f);
     match n {
         Nonce::Lib => t.encrypt_with_aad(k, aad),
@@ -26,6 +27,7 @@ pub fn seal_local_with<V: Full, M: Payload, F: Footer>(k: &LocalKey<V>, m: M, f:
 }
 
 pub fn seal_public_with<V: Full, M: Payload, F: Footer>(k: &SecretKey<V>, m: M, f: F, aad: &[u8], n: &Nonce) -> Result<SealedToken<V, Public, M, F>, PasetoError> {
+    crate::perturb::between();
     let t = UnsealedToken::<V, Public, M>::new(m).with_footer(f);
     match n {
         Nonce::Lib => t.sign_with_aad(k, aad),
@@ -50,12 +52,14 @@ pub fn sign<V: Full>(k: &SecretKey<V>, msg: &[u8], footer: Option<&[u8]>, aad: &
 
 /// parse as a raw-payload / byte-footer token and decrypt
 pub fn dec<V: Full>(k: &LocalKey<V>, token: &str, aad: &[u8]) -> Result<(Vec<u8>, Vec<u8>), PasetoError> {
+    crate::perturb::between();
     let t: SealedToken<V, Local, Raw, Vec<u8>> = token.parse()?;
     let u = t.decrypt_with_aad(k, aad, &NoValidation::dangerous_no_validation())?;
     Ok((u.claims.0, u.footer))
 }
 
 pub fn verify<V: Full>(k: &PublicKey<V>, token: &str, aad: &[u8]) -> Result<(Vec<u8>, Vec<u8>), PasetoError> {
+    crate::perturb::between();
     let t: SealedToken<V, Public, Raw, Vec<u8>> = token.parse()?;
     let u = t.verify_with_aad(k, aad, &NoValidation::dangerous_no_validation())?;
     Ok((u.claims.0, u.footer))
